@@ -112,7 +112,8 @@ SEEDS = {
     'int': ['0', '1', '-1', '+5', ' 7 ', '007', '1_000', '1__0', '_1', '1_', '١٢٣', '3.0', '1e3', '', ' ', '--1', '0x10', '0b1', '1 2', 'nan', 'inf', '9' * 40, '\t5\n'],
     'float': ['0', '1.5', '-2.25', '+3', '.5', '5.', '1e3', '1E-3', '1e999', '-1e999', 'nan', 'NaN', '-nan', 'inf', '-inf', 'Infinity', '+INF', ' 2.5 ', '1_000.5', '1__0.0',
               '١٢٫٥', '١٢', '1,000', '1.2.3', '', '  ', '$5', '5 %'.replace(' %', ''), '0x1p3', '1e', 'e5', '--1', '1e-400', '1' * 400, '\t1.0\n'],
-    'enum': ['alpha', 'beta', 'gamma', 'Alpha', 'ALPHA', ' alpha ', 'alph', 'alphaa', 'first', '', ' ', 'alpha beta', 'delta', '0', 'GenEnum.alpha', '__class__', 'name', 'value', '_missing_'],
+    'enum': ['alpha', 'beta', 'gamma', 'Alpha', 'ALPHA', ' alpha ', 'alph', 'alphaa', 'first', '', ' ', 'alpha beta', 'delta', '0', 'GenEnum.alpha', '__class__', 'name', 'value', '_missing_',
+             '"alpha"', "'alpha'", 'alpha"', '"alpha', '""', "''", '(alpha)', '[alpha]', '<alpha>', '`alpha`', 'alpha,', 'alpha.', '-alpha'],
     'regex': ['01234', '12999', '00123', '13000', '0123', '012345', ' 01234 ', '01234\n', '01234x', 'x01234', '', '0 1234', '٠١٢٣٤'],
     'ssn': ['123-45-6789', '123456789', ' 123-45-6789 ', '1-2-3-4-5-6-7-8-9', '12345678', '1234567890', '123-45-678x', '', '---------', '١٢٣٤٥٦٧٨٩', '123 45 6789', '-123456789-'],
     'str': ['hello', ' padded ', '', '   ', 'two words', 'tab\there', 'semi;colon', 'hash # in', 'equals = sign', 'colon: here', 'unicode é ü', 'x' * 300, '[section]', "quote's", 'back\\slash'],
@@ -148,6 +149,9 @@ def strings_for(itype, rng, n):
             elif m < 0.85:
                 k = rng.randint(0, len(s))
                 s = s[:k] + rng.choice(alphabet) + s[k:]
+            elif m < 0.93:
+                a_, b_ = rng.choice([('"', '"'), ("'", "'"), ('(', ')'), ('[', ']'), ('<', '>'), ('"', ''), ('', '"'), ('`', '`'), ('', ','), ('', '.')])
+                s = a_ + s + b_
             else:
                 s = rng.choice(['+', '-', '']) + s
         s = s.replace('%', '').replace('\r', '').replace('\n', '')   # see ASSUMPTIONS; ConfigParser values are single-line here
@@ -430,7 +434,8 @@ def run_catalogue(spec, tier, seed, res):
             for inp in fo.inputs():
                 it = type_of_input(inp, I)
                 if isinstance(inp, I.EnumInput):
-                    corpus = list(inp.enum.__members__)[:3] + ['', ' ', 'nosuch', list(inp.enum.__members__)[0].lower(), '__class__']
+                    m0 = list(inp.enum.__members__)[0]
+                    corpus = list(inp.enum.__members__)[:3] + ['', ' ', 'nosuch', m0.lower(), '__class__', f'"{m0}"', f"'{m0}'", f'{m0}"', '""', f'({m0})']
                 elif isinstance(inp, I.RegexInput):
                     corpus = ['021000021', '12345678', '', 'abc', '1234-AB', '0' * 18]
                 else:
